@@ -30,3 +30,18 @@ def fmtOptNat : Option Nat → String
   | none => "none"
 
 end DM.Drv
+
+namespace DM.Drv
+
+/-- bits packed as "<n>:<hex>", four bits per hex digit, most significant first -/
+def unpackBits (s : String) : List Bool :=
+  match s.splitOn ":" with
+  | [n, h] =>
+    let n := n.toNat!
+    let all := h.toList.flatMap fun c =>
+      let v := hexVal c
+      [v / 8 % 2 == 1, v / 4 % 2 == 1, v / 2 % 2 == 1, v % 2 == 1]
+    all.take n
+  | _ => []
+
+end DM.Drv
